@@ -145,13 +145,13 @@ func (r *Report) print(verbose bool) {
 			if os.Getenv("GOVC_EXPLAIN") != "" {
 				seen := map[string]bool{}
 				for _, o := range s.inst {
-					if o.Status != "unsat" && !seen[o.Term] {
-						seen[o.Term] = true
+					if o.Status != "unsat" && !seen[o.Part+o.Term] {
+						seen[o.Part+o.Term] = true
 						t := o.Term
 						if len(t) > 600 {
 							t = t[:600] + "..."
 						}
-						fmt.Printf("          path %d: %s\n", o.Path, t)
+						fmt.Printf("          path %d part=%q: %s\n", o.Path, o.Part, t)
 					}
 				}
 			}
@@ -171,6 +171,9 @@ type KnownFindings struct {
 		Property   string `json:"property"`
 		Obligation string `json:"obligation"`
 		What       string `json:"what"`
+		// Parts: for a frame obligation of a call, the heap families of the callee's footprint that are known not
+		// to be writable here; an instance about any other family is a new violation, not this finding
+		Parts []string `json:"parts,omitempty"`
 	} `json:"findings"`
 	Fixed []string `json:"fixed"`
 }
@@ -234,16 +237,35 @@ func (r *Report) finish(evidenceDir, knownPath, replayDir string, want map[strin
 				continue
 			}
 			isKnown := false
+			var beyond []string
 			for _, f := range kf.Findings {
 				if f.Obligation == s.Name {
 					// a listed finding is reported under the property it was recorded for, whichever check meets it
 					fmt.Printf("KNOWN-FINDING: property=%s %s %s\n", f.Property, s.Name, f.What)
 					isKnown = true
 					known++
+					if len(f.Parts) > 0 {
+						allowed := map[string]bool{}
+						for _, p := range f.Parts {
+							allowed[p] = true
+						}
+						seen := map[string]bool{}
+						for _, o := range s.inst {
+							if o.Status != "unsat" && !allowed[o.Part] && !seen[o.Part] {
+								seen[o.Part] = true
+								beyond = append(beyond, o.Part)
+							}
+						}
+					}
 				}
 			}
-			if isKnown {
+			if isKnown && len(beyond) == 0 {
 				continue
+			}
+			if isKnown {
+				// the obligation fails in a part the recorded finding does not cover: a different violation
+				sort.Strings(beyond)
+				s = &OblSummary{Name: s.Name + "/part:" + strings.Join(beyond, ","), Kind: s.Kind, Func: s.Func, Props: s.Props, Desc: s.Desc + " (fails for footprint parts the recorded finding does not cover: " + strings.Join(beyond, ", ") + ")", Pos: s.Pos, Answer: s.Answer, Solver: s.Solver, inst: s.inst}
 			}
 			violations++
 			path := r.writeReplay(replayDir, prop, s)
